@@ -195,6 +195,7 @@ func (e *EndpointIndex) GetOrCreateEndpointShard(serviceName, namespace string) 
 		return ep, false
 	}
 
+	verifGate("getorcreate:after-miss")
 	e.mu.Lock()
 	defer e.mu.Unlock()
 
@@ -327,6 +328,7 @@ func (e *EndpointIndex) UpdateServiceEndpoints(
 		pushType = FullPush
 	}
 
+	verifGate("update:before-shard-lock")
 	ep.Lock()
 	defer ep.Unlock()
 	oldIstioEndpoints := ep.Shards[shard]
